@@ -218,6 +218,11 @@ def main():
         pid = p["id"]
         if pid in CHECKS and os.path.exists(os.path.join(ROOT, "checks", pid.lower() + ".py")):
             tech, text, note, ref = CHECKS[pid]
+            import re
+
+            src = open(os.path.join(ROOT, "checks", pid.lower() + ".py")).read()
+            m = re.search(r'^LEVEL = "(\w+)"', src, re.M)
+            level = m.group(1) if m else "exploration"
             checks.append(
                 {
                     "property_id": pid,
@@ -226,7 +231,7 @@ def main():
                     "evidence_file": f"evidence/{pid}.json",
                     "replay_cmd_template": f"./run_check.py {pid} --replay {{path}}",
                     "engine": "vlib",
-                    "level_claimed": {"category": "exploration", "text": text, "design_ref": ref},
+                    "level_claimed": {"category": level, "text": text, "design_ref": ref},
                     "level_note": note,
                     "technique": tech,
                 }
